@@ -21,7 +21,8 @@ attribute [local instance] Cmp.ofLinearOrder
 
 /-- `partial_cmp` answers `Equal` exactly when the intervals are equal (`==`) -/
 theorem equal_iff (a b : Interval α) : partialCmp a b = some .eq ↔ a = b := by
-  cases a <;> cases b <;> simp [partialCmp, beq] <;> (try split_ifs) <;> simp_all
+  cases a <;> cases b <;> simp only [partialCmp, beq] <;> split_ifs <;> simp_all <;> split_ifs <;>
+    simp_all
 
 /-- … where `==` is the derived `PartialEq` -/
 theorem equal_iff_beq (a b : Interval α) : partialCmp a b = some .eq ↔ a.beq b = true := by
@@ -33,6 +34,230 @@ theorem equal_iff_beq (a b : Interval α) : partialCmp a b = some .eq ↔ a.beq 
 /-- `a < b` exactly when `a ≠ b` and every member of `a` is `≤` every member of `b` -/
 theorem lt_iff [NoMaxOrder α] [NoMinOrder α] (a b : Interval α) (ha : a.WF) (hb : b.WF) :
     partialCmp a b = some .lt ↔ a ≠ b ∧ ∀ x ∈ a.den, ∀ y ∈ b.den, x ≤ y := by
-  sorry
+  rw [partialCmp_lt_iff_bounds a b ha hb, forall_mem_le_iff_bounds a b ha hb]
+
+/-- `a > b` exactly when `a ≠ b` and every member of `a` is `≥` every member of `b` -/
+theorem gt_iff [NoMaxOrder α] [NoMinOrder α] (a b : Interval α) (ha : a.WF) (hb : b.WF) :
+    partialCmp a b = some .gt ↔ a ≠ b ∧ ∀ x ∈ a.den, ∀ y ∈ b.den, y ≤ x := by
+  rw [partialCmp_gt_iff_bounds a b ha hb]
+  have := forall_mem_le_iff_bounds b a hb ha
+  constructor
+  · rintro ⟨hne, l, h, h1, h2, h3⟩
+    exact ⟨hne, fun x hx y hy => this.mpr ⟨h, l, h2, h1, h3⟩ y hy x hx⟩
+  · rintro ⟨hne, H⟩
+    obtain ⟨h, l, h1, h2, h3⟩ := this.mp (fun y hy x hx => H x hx y hy)
+    exact ⟨hne, l, h, h2, h1, h3⟩
+
+/-- the same through the bounds, in EVERY linear order (bounded ones, machine integers, included):
+    `a < b` exactly when `a ≠ b`, `a` is bounded above, `b` is bounded below and
+    `high(a) ≤ low(b)` -/
+theorem lt_iff_bounds (a b : Interval α) (ha : a.WF) (hb : b.WF) :
+    partialCmp a b = some .lt ↔ a ≠ b ∧ ∃ h l, a.right = some h ∧ b.left = some l ∧ h ≤ l :=
+  partialCmp_lt_iff_bounds a b ha hb
+
+/-- touching at one endpoint still orders the intervals -/
+theorem lt_of_touching (x y z : α) (h1 : x ≤ y) (h2 : y ≤ z) (hne : x ≠ z) :
+    partialCmp (Interval.twoSided x y) (.twoSided y z) = some .lt ∧
+    partialCmp (Interval.lower y) (.upper y) = some .lt ∧
+    partialCmp (Interval.twoSided x y) (.upper y) = some .lt ∧
+    partialCmp (Interval.lower y) (.twoSided y z) = some .lt := by
+  refine ⟨?_, ?_, ?_, ?_⟩
+  · refine (lt_iff_bounds (.twoSided x y) (.twoSided y z) h1 h2).mpr ⟨?_, y, y, rfl, rfl, le_rfl⟩
+    intro h; injection h with h3 h4; exact hne (h3.trans h4)
+  · exact (lt_iff_bounds (.lower y) (.upper y) trivial trivial).mpr ⟨by simp, y, y, rfl, rfl, le_rfl⟩
+  · exact (lt_iff_bounds (.twoSided x y) (.upper y) h1 trivial).mpr ⟨by simp, y, y, rfl, rfl, le_rfl⟩
+  · exact (lt_iff_bounds (.lower y) (.twoSided y z) trivial h2).mpr ⟨by simp, y, y, rfl, rfl, le_rfl⟩
+
+/-! ### 3. duality, operator forms -/
+
+/-- `a < b` exactly when `b > a` -/
+theorem dual (a b : Interval α) (ha : a.WF) (hb : b.WF) :
+    partialCmp a b = some .lt ↔ partialCmp b a = some .gt := by
+  rw [partialCmp_lt_iff_bounds a b ha hb, partialCmp_gt_iff_bounds b a hb ha]
+  constructor
+  · rintro ⟨hne, h, l, h1, h2, h3⟩; exact ⟨fun e => hne e.symm, l, h, h2, h1, h3⟩
+  · rintro ⟨hne, l, h, h1, h2, h3⟩; exact ⟨fun e => hne e.symm, h, l, h2, h1, h3⟩
+
+/-- `Equal` is symmetric (no well-formedness needed) -/
+theorem dual_eq (a b : Interval α) : partialCmp a b = some .eq ↔ partialCmp b a = some .eq := by
+  rw [equal_iff, equal_iff, eq_comm]
+
+/-- `partial_cmp(b, a)` is the reverse of `partial_cmp(a, b)` -/
+theorem dual_swap (a b : Interval α) (ha : a.WF) (hb : b.WF) :
+    partialCmp b a = (partialCmp a b).map Ordering.swap := by
+  have h1 := dual a b ha hb
+  have h2 := dual b a hb ha
+  have h3 := dual_eq a b
+  cases hab : partialCmp a b with
+  | none =>
+    cases hba : partialCmp b a with
+    | none => rfl
+    | some o =>
+      cases o
+      · rw [hba] at h2; rw [h2.mp rfl] at hab; cases hab
+      · rw [hba] at h3; rw [h3.mpr rfl] at hab; cases hab
+      · rw [hba] at h1; rw [h1.mpr rfl] at hab; cases hab
+  | some o =>
+    cases o
+    · exact h1.mp hab
+    · exact h3.mp hab
+    · exact h2.mpr hab
+
+/-- the operators `<`, `>`, `<=`, `>=` are derived from `partial_cmp` as core does -/
+theorem operators (a b : Interval α) :
+    (ltI a b = true ↔ partialCmp a b = some .lt) ∧
+    (gtI a b = true ↔ partialCmp a b = some .gt) ∧
+    (leI a b = true ↔ partialCmp a b = some .lt ∨ partialCmp a b = some .eq) ∧
+    (geI a b = true ↔ partialCmp a b = some .gt ∨ partialCmp a b = some .eq) := by
+  refine ⟨by simp [ltI], by simp [gtI], ?_, ?_⟩
+  · unfold leI; cases h : partialCmp a b with
+    | none => simp
+    | some o => cases o <;> simp
+  · unfold geI; cases h : partialCmp a b with
+    | none => simp
+    | some o => cases o <;> simp
+
+/-- `a < b` is `b > a`, `a <= b` is `b >= a` -/
+theorem operators_dual (a b : Interval α) (ha : a.WF) (hb : b.WF) :
+    ltI a b = gtI b a ∧ leI a b = geI b a := by
+  constructor
+  · rw [Bool.eq_iff_iff, (operators a b).1, (operators b a).2.1]; exact dual a b ha hb
+  · rw [Bool.eq_iff_iff, (operators a b).2.2.1, (operators b a).2.2.2, dual a b ha hb,
+      dual_eq a b]
+
+/-- `a <= b` is `a < b || a == b`, `a >= b` is `a > b || a == b` -/
+theorem operators_le (a b : Interval α) :
+    leI a b = (ltI a b || a.beq b) ∧ geI a b = (gtI a b || a.beq b) := by
+  constructor
+  · rw [Bool.eq_iff_iff, (operators a b).2.2.1, Bool.or_eq_true, (operators a b).1,
+      equal_iff_beq]
+  · rw [Bool.eq_iff_iff, (operators a b).2.2.2, Bool.or_eq_true, (operators a b).2.1,
+      equal_iff_beq]
+
+/-- without well-formedness `partial_cmp` can answer `Greater` both ways round: this is why the
+    theorems above ask for `low ≤ high` (which every constructor guarantees) -/
+theorem not_dual_without_WF :
+    partialCmp (Interval.twoSided (5 : ℤ) 0) (.twoSided 1 2) = some .gt ∧
+    partialCmp (Interval.twoSided (1 : ℤ) 2) (.twoSided 5 0) = some .gt := by
+  constructor <;> decide
+
+/-! ### 4. strict partial order -/
+
+/-- `<` is irreflexive -/
+theorem irrefl (a : Interval α) : ltI a a = false := by
+  have : partialCmp a a = some .eq := (equal_iff a a).mpr rfl
+  simp [ltI, this]
+
+/-- `<` is transitive -/
+theorem trans (a b c : Interval α) (ha : a.WF) (hb : b.WF) (hc : c.WF)
+    (hab : ltI a b = true) (hbc : ltI b c = true) : ltI a c = true := by
+  rw [(operators _ _).1] at *
+  rw [partialCmp_lt_iff_bounds _ _ ha hb] at hab
+  rw [partialCmp_lt_iff_bounds _ _ hb hc] at hbc
+  rw [partialCmp_lt_iff_bounds _ _ ha hc]
+  obtain ⟨hne1, h1, l1, e1, e2, le1⟩ := hab
+  obtain ⟨hne2, h2, l2, e3, e4, le2⟩ := hbc
+  have hb' : l1 ≤ h2 := (left_le_of_mem e2 (right_mem_den hb e3))
+  refine ⟨?_, h1, l2, e1, e4, le1.trans (hb'.trans le2)⟩
+  rintro rfl
+  -- `a = c`: then `low a = l2 ≤ h1 = high a ≤ l1 ≤ h2 ≤ l2`, so `a = b = [l2, l2]`
+  have hla : l2 ≤ h1 := left_le_of_mem e4 (right_mem_den ha e1)
+  have e12 : h1 = l2 := le_antisymm (le1.trans (hb'.trans le2)) hla
+  have e13 : l1 = l2 := le_antisymm (hb'.trans le2) (by rw [← e12]; exact le1)
+  have e14 : h2 = l2 := le_antisymm le2 (by rw [← e13]; exact hb')
+  subst e12 e13 e14
+  apply hne1
+  cases a <;> cases b <;> simp_all [left, right]
+
+/-- `<` is asymmetric -/
+theorem asymm (a b : Interval α) (ha : a.WF) (hb : b.WF) (hab : ltI a b = true) :
+    ltI b a = false := by
+  by_contra h
+  rw [Bool.not_eq_false] at h
+  have := trans a b a ha hb ha hab h
+  rw [irrefl] at this
+  cases this
+
+/-- `<=` is a partial order on well-formed intervals: reflexive, antisymmetric, transitive -/
+theorem le_partial_order (a b c : Interval α) (ha : a.WF) (hb : b.WF) (hc : c.WF) :
+    leI a a = true ∧ (leI a b = true → leI b a = true → a = b) ∧
+    (leI a b = true → leI b c = true → leI a c = true) := by
+  refine ⟨?_, ?_, ?_⟩
+  · rw [(operators a a).2.2.1]; exact Or.inr ((equal_iff a a).mpr rfl)
+  · rw [(operators a b).2.2.1, (operators b a).2.2.1, equal_iff, equal_iff]
+    rintro (h1 | h1) (h2 | h2)
+    · have := asymm a b ha hb ((operators a b).1.mpr h1)
+      rw [(operators b a).1.mpr h2] at this; cases this
+    · exact h2.symm
+    · exact h1
+    · exact h1
+  · rw [(operators a b).2.2.1, (operators b c).2.2.1, (operators a c).2.2.1, equal_iff, equal_iff,
+      equal_iff]
+    rintro (h1 | rfl) (h2 | rfl)
+    · exact Or.inl ((operators a c).1.mp
+        (trans a b c ha hb hc ((operators a b).1.mpr h1) ((operators b c).1.mpr h2)))
+    · exact Or.inl h1
+    · exact Or.inl h2
+    · exact Or.inr rfl
+
+/-! ### 5. incomparable intervals -/
+
+/-- different intervals unbounded on the same side are incomparable -/
+theorem incomparable_same_side (x y : α) (h : x ≠ y) :
+    partialCmp (Interval.upper x) (.upper y) = none ∧
+    partialCmp (Interval.lower x) (.lower y) = none := by
+  simp [partialCmp, beq, h]
+
+/-- in general: two intervals that both lack an upper bound, or both lack a lower bound, are equal
+    or incomparable -/
+theorem incomparable_unbounded (a b : Interval α)
+    (h : (a.right = none ∧ b.right = none) ∨ (a.left = none ∧ b.left = none)) (hne : a ≠ b) :
+    partialCmp a b = none := by
+  cases a <;> cases b <;> simp_all [left, right, partialCmp, beq]
+
+/-- intervals that overlap in more than a shared endpoint are incomparable (unless equal) -/
+theorem incomparable_overlap (a b : Interval α) (ha : a.WF) (hb : b.WF) (hne : a ≠ b)
+    (h : ∃ x y, x < y ∧ x ∈ a.den ∩ b.den ∧ y ∈ a.den ∩ b.den) : partialCmp a b = none := by
+  obtain ⟨x, y, hxy, ⟨hxa, hxb⟩, ⟨hya, hyb⟩⟩ := h
+  cases hc : partialCmp a b with
+  | none => rfl
+  | some o =>
+    exfalso
+    cases o
+    · obtain ⟨_, h, l, e1, e2, e3⟩ := (partialCmp_lt_iff_bounds a b ha hb).mp hc
+      have h1 := le_right_of_mem e1 hya
+      have h2 := left_le_of_mem e2 hxb
+      order
+    · exact hne ((equal_iff a b).mp hc)
+    · obtain ⟨_, l, h, e1, e2, e3⟩ := (partialCmp_gt_iff_bounds a b ha hb).mp hc
+      have h1 := le_right_of_mem e2 hyb
+      have h2 := left_le_of_mem e1 hxa
+      order
+
+/-- comparable intervals share at most one point -/
+theorem comparable_inter_subsingleton (a b : Interval α) (ha : a.WF) (hb : b.WF) (hne : a ≠ b)
+    (h : partialCmp a b ≠ none) : (a.den ∩ b.den).Subsingleton := by
+  intro x hx y hy
+  by_contra hxy
+  rcases lt_or_gt_of_ne hxy with h1 | h1
+  · exact h (incomparable_overlap a b ha hb hne ⟨x, y, h1, hx, hy⟩)
+  · exact h (incomparable_overlap a b ha hb hne ⟨y, x, h1, hy, hx⟩)
+
+/-! non-vacuity: concrete well-formed intervals over ℤ on each side of the statements -/
+example : (Interval.twoSided (1 : ℤ) 3).WF ∧ (Interval.twoSided (3 : ℤ) 5).WF ∧
+    (Interval.twoSided (5 : ℤ) 9).WF ∧
+    ltI (Interval.twoSided (1 : ℤ) 3) (.twoSided 3 5) = true ∧
+    ltI (Interval.twoSided (3 : ℤ) 5) (.twoSided 5 9) = true ∧
+    ltI (Interval.twoSided (1 : ℤ) 3) (.twoSided 5 9) = true ∧
+    gtI (Interval.twoSided (3 : ℤ) 5) (.twoSided 1 3) = true ∧
+    partialCmp (Interval.twoSided (1 : ℤ) 4) (.twoSided 3 5) = none ∧
+    partialCmp (Interval.lower (1 : ℤ)) (.upper 1) = some .lt ∧
+    partialCmp (Interval.upper (1 : ℤ)) (.upper 2) = none := by
+  refine ⟨by simp, by simp, by simp, by decide, by decide, by decide, by decide, by decide,
+    by decide, by decide⟩
+
+example : ∃ x y : ℤ, x < y ∧ x ∈ (Interval.twoSided (1 : ℤ) 4).den ∩ (Interval.twoSided 3 5).den ∧
+    y ∈ (Interval.twoSided (1 : ℤ) 4).den ∩ (Interval.twoSided 3 5).den :=
+  ⟨3, 4, by decide, by simp [den], by simp [den]⟩
 
 end StatsCI.C15
